@@ -103,12 +103,22 @@ def cases(tier, seed):
         for m in ("multistart_greedy", "multistart_greedy_augment", "multistart_greedy_augment_dihedral_8", "augment", "sampling"):
             for (N, bs) in (((5, 2),) if q else ((5, 2), (6, 6), (7, 3))):
                 out.append(dict(kind="eval_best", env=env, n=rnd.choice([6, 8]), N=N, bs=bs, method=m, s=rnd.randrange(10**6), A=8 if "dihedral" in m else rnd.choice([2, 4]), k=rnd.choice([3, 5])))
+    # POMO / SymNCO validation steps: the best multi-start / augmentation actions must be the instance's own best rollout
+    for model, grid in (("pomo", ((3, 8), (4, 1), (3, 0), (5, 0))), ("symnco", ((4, 4), (3, 2), (4, 0)))):
+        for (S, A) in grid:
+            for env in ("tsp", "cvrp"):
+                out.append(dict(kind="model_val", model=model, env=env, n=rnd.choice([6, 8]), B=rnd.choice([2, 5]), S=S, A=A, s=rnd.randrange(10**6), phase=rnd.choice(["val", "test"])))
     return out
 
 
 def run_case(ctx, case):
     from vlib import c12impl
 
+    if case["kind"] == "model_val":
+        from vlib import c15impl
+
+        ctx.count("c12_evaluator_best_cases")
+        return c15impl.model_val_case(ctx, case)
     if case["kind"] == "eval_best":
         from vlib import c15impl
 
